@@ -24,7 +24,9 @@ RULE = (
     "ir_to_python raising NotImplementedError is counted as rejected per instruction kind. "
     "Plus an enumerated operator table (seed independent): one micro-module per (binary/unary operator, type), "
     "(cast source, destination), (condition, type) and (store type, load type), each called on the cross product of "
-    "boundary operands (about 300 modules, 32 000 calls). "
+    "boundary operands (about 300 modules, 36 000 calls). Calls the reference leaves undefined for an arithmetic reason "
+    "(MIN / -1, x / 0, out-of-range shift/rotate count, float->int out of range) are not compared but range-checked: if the "
+    "generated code returns a value for an integer-typed function it must be a value of that type (an exception is accepted). "
     "non-trivial = a defined call was compared and the module contains an integer / % << >>, a float<->int cast or a phi "
     "(table: a defined call was compared); distinct = (module, calls)"
 )
@@ -452,6 +454,40 @@ def hoist_allocs(desc):
     return desc
 
 
+# Executions the reference leaves undefined for an arithmetic reason are not compared, but "fixed-width" still binds
+# them: IF the generated code returns a value for an integer-typed function, the value is one of that type.  An
+# exception (x / 0 -> ZeroDivisionError, int(nan)) or running out of budget is acceptable (= undefined).
+WEAK_REASONS = {
+    "MIN / -1",
+    "division by zero",
+    "shift count out of range",
+    "rotate count out of range",
+    "float->int out of range",
+    "float->int of nan/inf",
+}
+
+
+def weak_range_check(code, module, f, fname, jargs, args, bufs, reason, index, stats):
+    if reason not in WEAK_REASONS or f["ret"] not in genir.INT_TYPES:
+        return None
+    try:
+        got = run_generated(code, module, fname, args, bufs, 4 * FUEL + 1000)
+    except GenFailure:
+        if stats is not None:
+            stats.hist["weak_range:raised_or_budget"] += 1
+        return None
+    if stats is not None:
+        stats.hist["weak_range:checked"] += 1
+    ret = got["ret"]
+    lo, hi = genir.int_range(f["ret"])
+    if isinstance(ret, int) and not isinstance(ret, bool) and lo <= ret <= hi:
+        return None
+    msg = "%s%r: the reference execution is undefined (%s), the generated code returns %r, which is not a value of the result type %s" % (
+        fname, jargs, reason, ret, f["ret"])
+    return {"call": index, "fname": fname, "args": args, "bufs": bufs, "events": set(), "ref": None, "steps": 0,
+            "stage": "out of range", "exc": "", "text": reason, "detail": "", "msg": msg}
+
+
 def evaluate(case, stats=None, excl=frozenset()):
     """The property on one case.  Returns (failure | None, compared calls); a failure is a dict with the message
     under 'msg' and the structured facts classify() needs."""
@@ -474,8 +510,11 @@ def evaluate(case, stats=None, excl=frozenset()):
         try:
             ref, events, steps = reference(module, fname, a, bufs)
         except irx.Undef as e:
-            if stats is not None:
+            if stats is not None and not (e.reason in WEAK_REASONS and f["ret"] in genir.INT_TYPES):
                 stats.discard("reference undefined: " + e.reason)
+            weak = weak_range_check(code, module, f, fname, args, a, bufs, e.reason, index, stats)
+            if weak:
+                return (weak, compared)
             continue
         except irx.Unsupported as e:
             if stats is not None:
@@ -716,7 +755,9 @@ def table_cases():
         for op in ops:
             if op in ("<<", ">>", "rol", "ror"):
                 bits = genir.BITS[ty]
-                pairs = [[a, b] for a in vals for b in (0, 1, 3, bits // 2, bits - 1)]
+                lo, hi = genir.int_range(ty)
+                counts = [0, 1, 3, bits // 2, bits - 1] + [c for c in (bits, bits + 1, hi, -1, lo) if lo <= c <= hi]  # the last ones: undefined, range-checked only
+                pairs = [[a, b] for a in vals for b in dict.fromkeys(counts)]
             else:
                 pairs = [[a, b] for a in vals for b in vals]
             cases.append(("binop:%s:%s" % (op, ty), _micro([["a", ty], ["b", ty]], ty, [{"name": "b0", "ins": [["binop", "v", ty, "a", op, "b"], ["ret", "v"]]}], pairs)))
